@@ -588,6 +588,83 @@ impl<T: Gen + Hash + Eq> Gen for HashSet<T> {
     }
 }
 
+/// A hasher state that owns heap memory (e.g. a seed table): HashMap / HashSet
+/// estimates include their hasher's heap size.
+#[derive(Clone)]
+pub struct SeedBuild {
+    seeds: Vec<u64>,
+}
+impl std::hash::BuildHasher for SeedBuild {
+    type Hasher = std::collections::hash_map::DefaultHasher;
+    fn build_hasher(&self) -> Self::Hasher {
+        use std::hash::Hasher;
+        let mut h = std::collections::hash_map::DefaultHasher::new();
+        for s in &self.seeds {
+            h.write_u64(*s);
+        }
+        h
+    }
+}
+impl lru_mem::HeapSize for SeedBuild {
+    fn heap_size(&self) -> usize {
+        self.seeds.capacity() * 8
+    }
+}
+fn seed_build(i: usize) -> SeedBuild {
+    let mut seeds = Vec::with_capacity(3 + i);
+    seeds.push(i as u64);
+    SeedBuild { seeds }
+}
+
+impl<K: Gen + Hash + Eq, V: Gen> Gen for HashMap<K, V, SeedBuild> {
+    fn count() -> usize {
+        MAP_SHAPES.len()
+    }
+    fn make(i: usize) -> Self {
+        let (n, reserve) = MAP_SHAPES[i];
+        let mut m = HashMap::with_hasher(seed_build(i));
+        if reserve > 0 {
+            m.reserve(reserve);
+        }
+        for j in 0..n {
+            m.insert(K::make(j % K::count()), V::make(j % V::count()));
+        }
+        m
+    }
+    fn ref_heap(&self) -> usize {
+        self.hasher().seeds.capacity() * 8
+            + self.capacity() * size_of::<(K, V)>()
+            + self.keys().map(|k| k.ref_heap()).sum::<usize>()
+            + self.values().map(|v| v.ref_heap()).sum::<usize>()
+    }
+    fn alloc_cmp() -> AllocCmp {
+        combine(AllocCmp::AtMost, combine(K::alloc_cmp(), V::alloc_cmp()))
+    }
+}
+
+impl<T: Gen + Hash + Eq> Gen for HashSet<T, SeedBuild> {
+    fn count() -> usize {
+        MAP_SHAPES.len()
+    }
+    fn make(i: usize) -> Self {
+        let (n, reserve) = MAP_SHAPES[i];
+        let mut m = HashSet::with_hasher(seed_build(i));
+        if reserve > 0 {
+            m.reserve(reserve);
+        }
+        for j in 0..n {
+            m.insert(T::make(j % T::count()));
+        }
+        m
+    }
+    fn ref_heap(&self) -> usize {
+        self.hasher().seeds.capacity() * 8 + self.capacity() * size_of::<T>() + self.iter().map(|k| k.ref_heap()).sum::<usize>()
+    }
+    fn alloc_cmp() -> AllocCmp {
+        combine(AllocCmp::AtMost, T::alloc_cmp())
+    }
+}
+
 impl<T: 'static> Gen for PhantomData<T> {
     fn count() -> usize {
         1
